@@ -167,7 +167,7 @@ def idx(sts, pred, default):
     return next((i for i, s in enumerate(sts) if pred(s)), default)
 
 
-def build_file(rng, fid, rel, target, refs, fault, uid, tier, referenced=False, ext=8000):
+def build_file(rng, fid, rel, target, refs, fault, uid, tier, referenced=False, ext=8000, sealed_only=False):
     """refs: reference statements to place; fault: category name or None.  Returns the file dict."""
     ctr = [fid * 100]
     kind = rng.choice(["struct", "struct", "union"] + ([] if referenced else ["service"]))      # a service type cannot be a field type
@@ -180,8 +180,8 @@ def build_file(rng, fid, rel, target, refs, fault, uid, tier, referenced=False, 
         kind = "service"
     if fault == "attr:after-extent":
         mode = "extent"
-    if fault in ("dir:extent-after-sealed", "dir:sealed-twice"):
-        mode = "sealed"
+    if fault in ("dir:extent-after-sealed", "dir:sealed-twice") or sealed_only:
+        mode = "sealed"      # sealed_only: _offset_ is expanded numerically, keep the sets small (cost guard)
     if fault == "final:union-arity":
         refs = refs[:1]
     ukind = "union" if kind == "union" else "struct"
@@ -353,10 +353,10 @@ def gen_case(rng, tier, category=None, depth=None, where=None):
             if rng.random() < 0.25:
                 refs.append(ref_field(nxt["full"] + ".1.0", nxt["id"], "rr%d" % lvl))    # a second reference: cache hit
         fault_here = category != "print" and lvl == where
-        files.append(build_file(rng, c["id"], c["rel"], c["target"], refs, category if fault_here else None, uid, tier, referenced=lvl > 0, ext=8000 * 100 ** (3 - lvl)))
+        files.append(build_file(rng, c["id"], c["rel"], c["target"], refs, category if fault_here else None, uid, tier, referenced=lvl > 0, ext=8000 * 4 ** (3 - lvl), sealed_only=category == "commit:union-offset"))
     for e in extra_targets:
         refs = [ref_field(chain[r - 1]["full"] + ".1.0", r, "e%d" % r) for r in e["refs"]]
-        files.append(build_file(rng, e["id"], e["rel"], True, refs, None, uid, tier, ext=8000 * 100 ** 4))
+        files.append(build_file(rng, e["id"], e["rel"], True, refs, None, uid, tier, ext=8000 * 4 ** 4, sealed_only=category == "commit:union-offset"))
     return {"files": files, "category": category, "depth": depth, "where": where,
             "fault_file": (where + 1) if category != "print" else None}
 
